@@ -121,6 +121,10 @@ def arrays(draw, universe, letters=None, modes=("coded",), tag="x", min_dims=0, 
         letters = draw(ordered_subtuple(uletters(universe), min_size=min_dims))
     mode = draw(st.sampled_from(list(modes)))
     desc = {"letters": list(letters), "mode": mode, "tag": tag}
+    if len(letters) >= 2:
+        mem = draw(st.sampled_from(["C", "C", "C", "F", "T", "S"]))
+        if mem != "C":
+            desc["mem"] = mem
     if mode in ("frac", "float"):
         n = _size(universe, letters)
         el = elems or (small_fracs if mode == "frac" else nice_floats)
